@@ -71,6 +71,16 @@ def run(ctx):
         calls.append((cls, (op,) + args))
 
     words = open(os.path.join(os.path.dirname(os.path.dirname(os.path.dirname(os.path.abspath(__file__)))), "data", "bip39-english.txt")).read().split()
+    # multi-byte characters straddling small byte offsets, to every text parser of the library
+    for t in ["€", "😀", "0é", " 1中", "0x€", "a€", "ab€", "abc😀", "m/€", "m/0é", "0x" + "€" * 43, "€" * 44, "x" * 15 + "é" + "x", "abandon " * 11 + "x" * 15 + "éx"]:
+        add("multibyte", "mnemonic.parse", t)
+        add("multibyte", "mnemonic.parse", " ".join(["abandon"] * 11 + [t]))
+        add("multibyte", "path.parse", t)
+        add("multibyte", "sig.parse", t)
+        add("multibyte", "sig.parse", "0x" + t + "00" * 60)
+        add("multibyte", "typeddata.member_kind", t)
+        add("multibyte", "typeddata.member_kind", "uint" + t)
+        add("multibyte", "typeddata.member_kind", t + "[2]")
     # mnemonics
     for k in range(0, 41):
         for _ in range(2 * scale):
@@ -209,6 +219,18 @@ def run(ctx):
     for body in [b"", b"\xff", b"0x0", b"zz", b"0x" + b"00" * 100000, "0x　".encode(), b"\x00" * 10]:
         cli("cli/hex", ["hex", "decode"], stdin=body)
         cli("cli/hex", ["hex", "encode"], stdin=body)
+    mb = ["€", "😀", "0é", " 1中", "é", "0x€", "0xé", "a€", "ab€", "abc😀", "\u00e9" * 5, "0\u0301x", "１２", "0x１２"]
+    for t in mb:
+        cli("cli/multibyte", ["hex", "decode"], stdin=t.encode("utf8"))
+        cli("cli/multibyte", ["new", "--vanity-prefix=" + t, "-j", "0"], env=dict(LD_PRELOAD=ctx.bins["shim"], HDW_SHIM_DEFAULT="fail"))
+        cli("cli/multibyte", ["address", "--mnemonic", phrase, "--hd-path=" + t])
+        cli("cli/multibyte", ["address", "--mnemonic", phrase, "--hd-path=m/" + t])
+        cli("cli/multibyte", ["address", "--mnemonic", " ".join(["abandon"] * 11 + [t])])
+        cli("cli/multibyte", ["sign", "--mnemonic", phrase, "raw", t])
+        cli("cli/multibyte", ["sign", "--mnemonic", phrase, "raw", "0x" + t])
+        cli("cli/multibyte", ["hash", "transaction", "-", "--signature=" + t], stdin=b'{"nonce":0,"gasPrice":0,"gas":0,"value":0,"data":"0x","chainId":1}')
+        cli("cli/multibyte", ["hash", "transaction", "-", "--signature=0x" + t], stdin=b'{"nonce":0,"gasPrice":0,"gas":0,"value":0,"data":"0x","chainId":1}')
+        cli("cli/multibyte", ["new", "-l", t])
     for doc in ["", "{", "[]", "null", json.dumps(TYPED), '{"nonce":-1}', "\xff"]:
         for sub in (["sign", "--mnemonic", phrase, "transaction", "-"], ["sign", "--mnemonic", phrase, "typeddata", "-"], ["hash", "typeddata", "-"],
                     ["hash", "transaction", "-"], ["sign", "--mnemonic", phrase, "message", "-"], ["hash", "data", "-"]):
